@@ -1037,8 +1037,11 @@ impl<'a> Visitor<'a> {
             return Ok(None);
         }
 
-        let message = self.visit_expr(debug_rule.value)?;
-        let message = message.inspect(debug_rule.span)?;
+        // a string is printed as its text, anything else as `inspect()` would
+        let message = match self.visit_expr(debug_rule.value)? {
+            Value::String(text, ..) => text,
+            value => value.inspect(debug_rule.span)?,
+        };
 
         let loc = self.map.look_up_span(debug_rule.span);
         self.options.logger.debug(loc, message.as_str());
@@ -1584,8 +1587,10 @@ impl<'a> Visitor<'a> {
     }
 
     fn visit_warn_rule(&mut self, warn_rule: AstWarn) -> SassResult<()> {
-        let value = self.visit_expr(warn_rule.value)?;
-        let message = value.to_css_string(warn_rule.span, self.options.is_compressed())?;
+        let message = match self.visit_expr(warn_rule.value)? {
+            Value::String(text, ..) => text,
+            value => value.to_css_string(warn_rule.span, self.options.is_compressed())?,
+        };
 
         // like dart-sass, only an identical message from the same `@warn` is
         // suppressed: a loop that warns about different things reports each of them
